@@ -197,12 +197,15 @@ def nnx_transform_metadata(case, ctx):
   ax = case['axis']
   n = N_SCAN if case['kind'] == 'scan' else N_VMAP
   tm = {nnx.PARTITION_NAME: 'layers'}
-  st_axes = nnx.StateAxes({nnx.Param: ax, ...: 0})
+  st_axes = nnx.StateAxes({nnx.Param: ax, ...: 0})   # BatchStat stacks on 0
   def make(key):
-    return nnx.Linear(din, dout, use_bias=False,
-                      kernel_init=nnx.with_partitioning(
-                          nnx.initializers.lecun_normal(), names),
-                      rngs=nnx.Rngs(key))
+    m = nnx.Linear(din, dout, use_bias=False,
+                   kernel_init=nnx.with_partitioning(
+                       nnx.initializers.lecun_normal(), names),
+                   rngs=nnx.Rngs(key))
+    # a rank-0 Variable: its complete annotation is the empty tuple
+    m.temperature = nnx.BatchStat(jnp.ones(()), sharding=())
+    return m
   keys = jax.random.split(jax.random.key(case['seed']), n)
   with sut('create under transform'):
     if case['kind'] == 'vmap':
@@ -218,14 +221,22 @@ def nnx_transform_metadata(case, ctx):
           f'{k.value.shape}, expected {exp_shape}')
   require(tuple(k.sharding) == exp_names, lambda: f'sharding {k.sharding}, '
           f'expected {exp_names}')
+  t = model.temperature
+  require(tuple(t.value.shape) == (n,) and tuple(t.sharding) == ('layers',),
+          lambda: f'rank-0 Variable stacked to shape {t.value.shape} carries '
+          f'sharding {t.sharding!r}, expected (\'layers\',)')
   with sut('nnx.get_partition_spec'):
     spec = nnx.get_partition_spec(nnx.state(model))
+  require(spec['temperature'].value == P('layers'), lambda: 'partition spec '
+          f'of the stacked rank-0 Variable is {spec["temperature"].value}')
   require(spec['kernel'].value == P(*exp_names), lambda: f'partition spec '
           f'{spec["kernel"].value} != {P(*exp_names)}')
   seen = {}
   def fwd(m, x):
     seen['sharding'] = tuple(m.kernel.sharding)
     seen['shape'] = tuple(m.kernel.value.shape)
+    seen['t_sharding'] = tuple(m.temperature.sharding)
+    seen['t_shape'] = tuple(m.temperature.value.shape)
     return x @ m.kernel.value
   x = jnp.ones((n, din))
   with sut('forward under transform'):
@@ -242,6 +253,12 @@ def nnx_transform_metadata(case, ctx):
   require(tuple(model.kernel.sharding) == exp_names and tuple(
       model.kernel.value.shape) == exp_shape, 'metadata not restored after '
           'the transform')
+  require(seen['t_sharding'] == () and seen['t_shape'] == (), lambda: 'inside '
+          f'the transform the rank-0 Variable has sharding '
+          f'{seen["t_sharding"]} / shape {seen["t_shape"]}')
+  require(tuple(model.temperature.sharding) == ('layers',), lambda: 'rank-0 '
+          f'Variable lost its annotation after the transform: '
+          f'{model.temperature.sharding!r}')
   ref = np.stack([np.asarray(x[i]) @ np.take(np.asarray(k.value), i, axis=ax)
                   for i in range(n)])
   require(np.allclose(np.asarray(y), ref, rtol=1e-4, atol=1e-5), 'annotated kernel '
